@@ -455,13 +455,183 @@ func o3Lines(names []string, apps []bool, kinds []string, ids map[string]int) []
 	return l
 }
 
+var o3ReReserved = regexp.MustCompile(`^r\d`)
+
+// o3Expect judges from the generator's input alone which diagnostics have to come:
+// must != "": an entry of an unmergeable kind (enumerated per backend in NA/Props/C18Other.lean) is present;
+// otherwise no error may come at all.
+func o3Expect(c O3Case) (must string) {
+	switch c.Backend {
+	case "linux":
+		known := map[string]map[string]string{} // table -> chain -> policy, of the parts merged so far
+		for pi, f := range c.L {
+			if !f.Present {
+				continue
+			}
+			cur := ""
+			own := map[string]map[string]string{}
+			var order []string
+			for _, l := range f.Lines {
+				switch l.K {
+				case "T":
+					if own[l.A] != nil {
+						return "table " + l.A + " written twice"
+					}
+					own[l.A] = map[string]string{}
+					order = append(order, l.A)
+					cur = l.A
+				case "C", "S", "A":
+					if cur == "" {
+						return "line outside of any table"
+					}
+					if l.K == "C" {
+						if _, dup := own[cur][l.A]; dup {
+							return "chain " + l.A + " written twice"
+						}
+						own[cur][l.A] = l.B
+					}
+					if l.K == "A" {
+						if _, ok := own[cur][l.A]; !ok {
+							return "rule of chain " + l.A + " without policy line"
+						}
+					}
+				case "O":
+					return "unknown line"
+				}
+			}
+			for t, chains := range own {
+				if known[t] == nil {
+					known[t] = chains // new table: taken as it is
+					continue
+				}
+				for n, pol := range chains {
+					if old, ok := known[t][n]; ok {
+						if old == "-" || old == "" {
+							return fmt.Sprintf("user chain %s/%s of part %d is defined by an earlier part", t, n, pi)
+						}
+					} else {
+						known[t][n] = pol
+					}
+				}
+			}
+		}
+	case "nsx":
+		raw := c.N[2]
+		if raw.Present {
+			for _, p := range raw.Policies {
+				for _, r := range p.Rules {
+					if o3ReReserved.MatchString(r) {
+						return "reserved rule name " + r
+					}
+				}
+			}
+			for _, g := range raw.Groups {
+				if !strings.HasPrefix(g, "Netspoc") || regexp.MustCompile(`^Netspoc-g\d`).MatchString(g) {
+					return "group name " + g
+				}
+			}
+			for _, sv := range raw.Services {
+				if !strings.HasPrefix(sv, "Netspoc-raw") {
+					return "service name " + sv
+				}
+			}
+		}
+	case "panos":
+		devName := ""
+		merged := map[string]*O3Vsys{} // objects and rules known under a vsys name so far
+		hasEntry := false
+		for pi, p := range c.P {
+			if !p.Present || !p.HasEntry {
+				continue
+			}
+			if pi == 2 {
+				for _, v := range p.Vsys {
+					for _, r := range v.Rules {
+						if o3ReReserved.MatchString(r.Name) {
+							return "reserved rule name " + r.Name
+						}
+					}
+				}
+			}
+			if hasEntry && devName != "" && p.DevName != "" && devName != p.DevName {
+				return "device name " + p.DevName + " differs from " + devName
+			}
+			last := map[string]int{}
+			for i, v := range p.Vsys {
+				last[v.Name] = i
+			}
+			differ := func(typ string, old, neu []O3Obj, group bool) string {
+				for _, o2 := range neu {
+					for _, o1 := range old {
+						v1, v2 := o1.Val, o2.Val
+						if group {
+							a, b := strings.Split(v1, ","), strings.Split(v2, ",")
+							sort.Strings(a)
+							sort.Strings(b)
+							v1, v2 = strings.Join(a, ","), strings.Join(b, ",")
+						}
+						if o1.Name == o2.Name && v1 != v2 {
+							return typ + " " + o2.Name + " defined differently"
+						}
+					}
+				}
+				return ""
+			}
+			for i, v := range p.Vsys {
+				if m := merged[v.Name]; m != nil && last[v.Name] == i {
+					for _, e := range []string{differ("address", m.Addresses, v.Addresses, false), differ("address-group", m.AddressGroups, v.AddressGroups, true),
+						differ("service", m.Services, v.Services, false), differ("service-group", m.ServiceGroups, v.ServiceGroups, true)} {
+						if e != "" {
+							return e
+						}
+					}
+				}
+			}
+			wasKnown := map[string]bool{}
+			for n := range merged {
+				wasKnown[n] = true
+			}
+			for i, v := range p.Vsys {
+				if wasKnown[v.Name] && last[v.Name] != i {
+					continue // not merged (F-C18k)
+				}
+				m := merged[v.Name]
+				if m == nil {
+					m = &O3Vsys{Name: v.Name}
+					merged[v.Name] = m
+				}
+				m.Addresses = append(m.Addresses, v.Addresses...)
+				m.AddressGroups = append(m.AddressGroups, v.AddressGroups...)
+				m.Services = append(m.Services, v.Services...)
+				m.ServiceGroups = append(m.ServiceGroups, v.ServiceGroups...)
+			}
+			if !hasEntry {
+				hasEntry = true
+				if pi == 0 {
+					devName = p.DevName
+				} else if len(p.Vsys) == 0 {
+					hasEntry = false // nothing created
+				}
+			}
+		}
+	}
+	return ""
+}
+
 func o3Oracle(c O3Case, r o3Real) []violation {
 	var vs []violation
 	if r.panicM != "" {
 		return []violation{{"merge_panic", r.panicM}}
 	}
+	must := o3Expect(c)
 	if r.aborted || r.perr != "" {
+		if must == "" {
+			return []violation{{"valid_input_rejected", "input without any unmergeable entry ends with: " + strings.TrimSpace(r.stderr+" "+r.perr)}}
+		}
 		return nil
+	}
+	if must != "" {
+		vs = append(vs, violation{"unmergeable_entry_not_reported", must + ": no error"})
 	}
 	switch c.Backend {
 	case "nsx":
@@ -527,61 +697,132 @@ func o3Oracle(c O3Case, r o3Real) []violation {
 		if r.pfin == nil {
 			return nil
 		}
-		dupPart := false
 		names := map[string]bool{}
 		for part := range c.P {
-			seenV := map[string]bool{}
 			for _, v := range c.P[part].Vsys {
-				if seenV[v.Name] {
-					dupPart = true
-				}
-				seenV[v.Name] = true
 				names[v.Name] = true
 			}
 		}
+		// F-C18k, per vsys: occurrences of a vsys name inside one part that are not the last one are not merged
+		// when the name is known from an earlier part; `dropped` collects their rules and addresses
+		droppedRule, droppedAddr := map[string]bool{}, map[string]bool{}
+		separately := map[string]bool{}
 		for vn := range names {
 			idm := map[string]int{}
-			get := func(part int) []Line {
+			earlier := false
+			var parts3 [3][]Line
+			for part := range c.P {
 				var ns []string
 				var as []bool
 				if c.P[part].HasEntry {
+					var occ []O3Vsys
 					for _, v := range c.P[part].Vsys {
 						if v.Name == vn {
-							for _, ru := range v.Rules {
-								ns = append(ns, ru.Name)
-								as = append(as, ru.App && part == 2)
+							occ = append(occ, v)
+						}
+					}
+					if len(occ) > 1 && !earlier && part == 2 {
+						// a new vsys written twice: the code adds two vsys of that name; each is judged on its own
+						var finals [][]string
+						for _, v := range r.pfin.Vsys {
+							if v.Name == vn {
+								var l []string
+								for _, ru := range v.Rules {
+									l = append(l, ru.Name)
+								}
+								finals = append(finals, l)
 							}
 						}
+						if len(finals) != len(occ) {
+							vs = append(vs, violation{"vsys_written_twice_not_added_twice", fmt.Sprintf("panos vsys %s: %d entries in raw, %d in the result", vn, len(occ), len(finals))})
+						} else {
+							for i, v := range occ {
+								im := map[string]int{}
+								var ns2, res2 []string
+								var as2 []bool
+								for _, ru := range v.Rules {
+									ns2 = append(ns2, ru.Name)
+									as2 = append(as2, ru.App)
+								}
+								k2 := make([]string, len(ns2))
+								for j := range k2 {
+									k2[j] = "p"
+								}
+								l2 := o3Lines(ns2, as2, k2, im)
+								for _, n := range finals[i] {
+									res2 = append(res2, strconv.Itoa(im[n]))
+								}
+								vs = append(vs, checkList("panos", res2, nil, nil, l2, fmt.Sprintf("panos vsys %s (entry %d)", vn, i))...)
+							}
+						}
+						separately[vn] = true
+						occ = nil
+					}
+					if len(occ) > 1 && earlier {
+						for _, v := range occ[:len(occ)-1] {
+							for _, ru := range v.Rules {
+								droppedRule[vn+"/"+ru.Name] = true
+							}
+							for _, o := range v.Addresses {
+								droppedAddr[vn+"/"+o.Name] = true
+							}
+						}
+						occ = occ[len(occ)-1:]
+					}
+					for _, v := range occ {
+						for _, ru := range v.Rules {
+							ns = append(ns, ru.Name)
+							as = append(as, ru.App && part == 2)
+						}
+					}
+					if len(occ) > 0 {
+						earlier = true
 					}
 				}
 				k := make([]string, len(ns))
 				for i := range k {
 					k[i] = "p"
 				}
-				return o3Lines(ns, as, k, idm)
+				parts3[part] = o3Lines(ns, as, k, idm)
 			}
-			n4, n6, raw := get(0), get(1), get(2)
-			if len(n4)+len(n6)+len(raw) == 0 {
+			if separately[vn] {
 				continue
 			}
+			n4, n6, raw := parts3[0], parts3[1], parts3[2]
 			var res []string
-			found := false
 			for _, v := range r.pfin.Vsys {
 				if v.Name == vn {
-					found = true
 					for _, ru := range v.Rules {
+						if droppedRule[vn+"/"+ru.Name] {
+							continue // a rule the known finding says is dropped, but it is there: judged below as foreign
+						}
 						res = append(res, strconv.Itoa(idm[ru.Name]))
 					}
 				}
 			}
-			_ = found
-			l := checkList("panos", res, n4, n6, raw, "panos vsys "+vn)
-			for i := range l {
-				if dupPart {
-					l[i].pred = "panos_duplicate_vsys_in_part"
+			// the known finding, for this vsys only and only for the rules it explains
+			for key := range droppedRule {
+				if !strings.HasPrefix(key, vn+"/") {
+					continue
+				}
+				found := false
+				for _, v := range r.pfin.Vsys {
+					if v.Name == vn {
+						for _, ru := range v.Rules {
+							found = found || vn+"/"+ru.Name == key
+						}
+					}
+				}
+				if !found {
+					vs = append(vs, violation{withAttrs("panos_duplicate_vsys_in_part", "affected_object=true", "model_predicts=true", "what_is_lost=rule"),
+						"rule " + key + " of a vsys entry that is written twice in one file is not merged"})
 				}
 			}
-			vs = append(vs, l...)
+			if len(n4)+len(n6)+len(raw) == 0 && len(res) == 0 {
+				continue
+			}
+			// the laws on the lines that have to be there, also for a vsys with the known defect
+			vs = append(vs, checkList("panos", res, n4, n6, raw, "panos vsys "+vn)...)
 		}
 		// objects: all there, no two different definitions under one name
 		for _, v := range r.pfin.Vsys {
@@ -611,8 +852,8 @@ func o3Oracle(c O3Case, r o3Real) []violation {
 					}
 					if !ok {
 						p := "object_lost"
-						if dupPart {
-							p = "panos_duplicate_vsys_in_part"
+						if droppedAddr[v.Name+"/"+o.Name] {
+							p = withAttrs("panos_duplicate_vsys_in_part", "affected_object=true", "model_predicts=true", "what_is_lost=address")
 						}
 						vs = append(vs, violation{p, "panos address " + o.Name + " of vsys " + v.Name})
 					}
@@ -986,6 +1227,15 @@ func o3Corpus() []O3Case {
 // ---------------------------------------------------------------- stream
 
 func runOther3(ctx *Ctx, res *Result, drv *Nadrv, genName string) {
+	judged, total := map[string]int{}, map[string]int{}
+	defer func() {
+		for b, n := range total {
+			if n > 100 && judged[b]*2 < n {
+				res.Disagree("c18 floor: too few cases judged", map[string]any{"backend": b, "stream": "other3"},
+					fmt.Sprintf("%d of %d cases end with a merged configuration", judged[b], n), "at least half")
+			}
+		}
+	}()
 	runCase := func(c O3Case) {
 		r := o3Run(c)
 		res.Count("o3:backend:" + c.Backend)
@@ -1049,8 +1299,13 @@ func runOther3(ctx *Ctx, res *Result, drv *Nadrv, genName string) {
 			}
 		}
 		for _, v := range o3Oracle(c, r) {
-			res.Count("oracle:" + v.pred)
-			res.Fail(map[string]any{"pred": v.pred, "backend": c.Backend, "stream": "other3"}, v.what, map[string]any{"o3": c})
+			sig, name := sigOf(v.pred, map[string]any{"backend": c.Backend, "stream": "other3"})
+			res.Count("oracle:" + name)
+			res.Fail(sig, v.what, map[string]any{"o3": c})
+		}
+		total[c.Backend]++
+		if strings.HasPrefix(impl, "ok\t") {
+			judged[c.Backend]++
 		}
 	}
 	if ctx.Replay != "" {
